@@ -327,3 +327,34 @@ Proof.
   intros p Hp. unfold div_value3. cbv zeta. rewrite !gval3_init.
   unfold init3, div_formula3, t3x, t3y, t3z. cbn [dv3 fst snd n0 nadd nsub nmul ndiv Rops]. unfold Rdiv. ring.
 Qed.
+
+(* ------------------------------------------------------------------ smoothed gradients inside the divergence *)
+Lemma out_fact_below_min sc c : s_has_samples sc = true -> (c <= s_min sc)%Z -> out_fact Rops sc true c = 0.
+Proof.
+  intros Hs Hc. unfold out_fact, smooth_inverse_weight. rewrite Hs. cbn [nleb nofZ n0 Rops].
+  rewrite (proj2 (Rleb_true (IZR c) (IZR (s_min sc)))) by (apply IZR_le; auto). reflexivity.
+Qed.
+
+Lemma out_fact_above_full sc c : s_has_samples sc = true -> (s_min sc < c)%Z -> (s_full sc <= c)%Z ->
+  out_fact Rops sc true c = 1 / IZR c.
+Proof.
+  intros Hs H1 H2. unfold out_fact, smooth_inverse_weight. rewrite Hs. cbn [nleb nltb ndiv nofZ n0 n1 Rops].
+  rewrite (proj2 (Rleb_false (IZR c) (IZR (s_min sc)))) by (apply IZR_lt; auto).
+  rewrite (proj2 (Rltb_false (IZR c) (IZR (s_full sc)))) by (apply IZR_le; auto). reflexivity.
+Qed.
+
+(* a bin at or below minSamples contributes a zero gradient to every divergence stencil that reads it, whatever
+   its neighbours hold; a bin at or above fullSamples contributes its plain average *)
+Lemma gval2_below_min sc (sh : shape2 (T:=R)) st ix : s_has_samples sc = true ->
+  (gcnt2 st (snd (wde2 sh ix)) <= s_min sc)%Z -> gval2 Rops sc true sh st ix = (0, 0).
+Proof.
+  intros Hs Hc. unfold gval2, get_grad2. destruct (wde2 sh ix) as [e ix'] eqn:E. cbn [snd] in Hc.
+  destruct e; [reflexivity|]. rewrite (out_fact_below_min sc _ Hs Hc). cbn [fst nmul Rops]. rewrite !Rmult_0_l. reflexivity.
+Qed.
+
+Lemma gval3_below_min sc (sh : shape3 (T:=R)) st ix : s_has_samples sc = true ->
+  (gcnt3 st (snd (wde3 sh ix)) <= s_min sc)%Z -> gval3 Rops sc true sh st ix = (0, 0, 0).
+Proof.
+  intros Hs Hc. unfold gval3, get_grad3. destruct (wde3 sh ix) as [e ix'] eqn:E. cbn [snd] in Hc.
+  destruct e; [reflexivity|]. rewrite (out_fact_below_min sc _ Hs Hc). cbn [fst nmul Rops]. rewrite !Rmult_0_l. reflexivity.
+Qed.
